@@ -3,6 +3,7 @@ package hsim
 // C18 Load balancers always pick a valid server and honour their policy.
 
 import (
+	"net/url"
 	"context"
 	"errors"
 	"fmt"
@@ -163,7 +164,7 @@ func (e *c18env) valid(c *c18call) bool {
 }
 
 func scenC18(r *Run) {
-	modes := []string{"cycle", "membership", "leastactive", "failure-aware", "cycle-conc", "membership", "leastactive-conc", "cycle"}
+	modes := []string{"cycle", "membership", "leastactive", "failure-aware", "cycle-conc", "membership", "leastactive-conc", "cycle", "resize"}
 	mode := modes[r.Index%len(modes)]
 	sub := r.Index / len(modes)
 	if v, ok := r.Opt["mode"]; ok {
@@ -314,6 +315,46 @@ func scenC18(r *Run) {
 				return
 			}
 		}
+	case "resize":
+		// the configured server list changes between calls (the unweighted kinds read it from the client on every
+		// call): every pick is one of the servers configured at that moment, whatever the list was before
+		kind := []string{"rr", "random", "leastactive"}[sub%3]
+		all := []int{1, 1, 1, 1, 1, 1}
+		e := newC18env(r, sim, kind, all)
+		full := append([]string(nil), e.urls...)
+		r.Param("kind", kind)
+		done := false
+		sim.Task("picks", func() {
+			defer func() { done = true }()
+			id := 0
+			n := 1 + r.Plan(len(full))
+			for step := 0; step < 40; step++ {
+				if r.Plan(3) == 0 {
+					n = 1 + r.Plan(len(full))
+				}
+				cur := full[:n]
+				us := make([]*url.URL, 0, n)
+				for _, u := range cur {
+					pu, _ := url.Parse(u)
+					us = append(us, pu)
+				}
+				e.client.URLs = us
+				e.urls = cur
+				id++
+				c := &c18call{id: id, outcome: "SSSE"[r.Plan(4)]}
+				e.do(c)
+				r.Res.Cases++
+				if c.panicked != nil && c.outcome != 'P' {
+					fail("balancer-panicked:"+kind, "after the server list changed to %d servers, pick %d panicked: %v", n, id, c.panicked)
+					return
+				}
+				if !c.entered || !contains(cur, c.url) {
+					fail("invalid-server:"+kind, "with %d servers configured (%v), pick %d went to %q (err %v)", n, cur, id, c.url, c.err)
+					return
+				}
+			}
+		})
+		sim.Drive(func() bool { return done })
 	case "membership":
 		// every kind, random outcomes including panics, sequential and concurrent callers
 		kind := c18Kinds[sub%len(c18Kinds)]
@@ -489,7 +530,7 @@ func scenC18(r *Run) {
 		kind := kinds[sub%3]
 		n := 2 + (sub/3)%3
 		wt := 2 + (sub/9)%3
-		scenario := []string{"reduce", "restore", "reduce-burst"}[(sub/27)%3]
+		scenario := []string{"reduce", "restore", "reduce-burst", "restore-burst"}[(sub/27)%4]
 		w := make([]int, n)
 		for i := range w {
 			w[i] = wt
@@ -590,6 +631,68 @@ func scenC18(r *Run) {
 				}
 				if float64(cnt) >= 0.5*share*float64(win) {
 					fail("failing-server-share-not-reduced:"+kind, "%d equal servers (weight %d): %s failed every time it was picked, yet in the last %d picks it was still chosen %d times (no-failure share would be %.0f)", n, wt, bad, win, cnt, share*float64(win))
+				}
+				return
+			}
+			if scenario == "restore-burst" {
+				// one failure, then many calls in flight at once that all succeed and finish together on the server
+				// that failed: its weight comes back, and not further than it was configured
+				failed := false
+				for k := 0; k < 50*sum && !failed; k++ {
+					pick(func(u string) byte {
+						if u == bad && !failed {
+							failed = true
+							return 'E'
+						}
+						return 'S'
+					})
+				}
+				if !failed {
+					return
+				}
+				var gates []chan struct{}
+				finB, nB := 0, 8*n
+				for b := 0; b < nB; b++ {
+					sim.Task(fmt.Sprintf("burst%02d", b), func() {
+						defer func() { finB++ }()
+						pick(func(u string) byte {
+							if u == bad {
+								g := make(chan struct{})
+								gates = append(gates, g)
+								<-g
+								verifsim.ForceYield(-83)
+							}
+							return 'S'
+						})
+					})
+				}
+				for finB+len(gates) < nB {
+					time.Sleep(time.Millisecond)
+					verifsim.ForceYield(-84)
+				}
+				r.Param("burst_successes", len(gates))
+				for _, g := range gates {
+					close(g)
+				}
+				for finB < nB {
+					time.Sleep(time.Millisecond)
+					verifsim.ForceYield(-85)
+				}
+				total, cnt := 60*sum, 0
+				for k := 0; k < total; k++ {
+					if pick(func(string) byte { return 'S' }) == bad {
+						cnt++
+					}
+				}
+				got := float64(cnt) / float64(total)
+				tol := 0.05
+				if kind != "nginx" {
+					tol = 0.15 // randomised kinds: 60*sum picks
+				}
+				if got > share+tol {
+					fail("share-exceeds-weight:"+kind, "%d equal servers (weight %d): after one failure and %d simultaneous successes %s got %.3f of %d failure-free picks, its configured share is %.3f", n, wt, len(gates), bad, got, total, share)
+				} else if got < share-tol {
+					fail("share-not-restored:"+kind, "%d equal servers (weight %d): after one failure and %d simultaneous successes %s got %.3f of %d failure-free picks, its configured share is %.3f", n, wt, len(gates), bad, got, total, share)
 				}
 				return
 			}
